@@ -144,6 +144,12 @@ pub(crate) fn serialize_text<'a, N: Normalizer>(
                 change = true;
                 result.push_str("&lt;")
             }
+            // a literal carriage return would be read back as a newline
+            // https://www.w3.org/TR/xml/#sec-line-ends
+            '\r' => {
+                change = true;
+                result.push_str("&#13;")
+            }
             '>' if !unescaped_gt => {
                 change = true;
                 result.push_str("&gt;")
@@ -261,6 +267,20 @@ pub(crate) fn serialize_attribute<'a, N: Normalizer>(
             '"' => {
                 change = true;
                 result.push_str("&quot;")
+            }
+            // literal white space other than a space would be read back as a
+            // space: https://www.w3.org/TR/xml/#AVNormalize
+            '\t' => {
+                change = true;
+                result.push_str("&#9;")
+            }
+            '\n' => {
+                change = true;
+                result.push_str("&#10;")
+            }
+            '\r' => {
+                change = true;
+                result.push_str("&#13;")
             }
             _ => result.push(c),
         }
